@@ -29,7 +29,7 @@ META = {
         "design_ref": "DESIGN.md §3 C03",
     },
     "C04": {
-        "text": "PARTIAL proof. Coq theorems for every Hamiltonian, operator arity and leg pair: the heat-bath exit choice of the directed loop satisfies W(o) P(o; e->x) = W(o') P(o'; x->e) (same normaliser both ways, exit weight = weight of the resulting operator), a bounce changes nothing; the diagonal update is reversible w.r.t. the configuration weight; cluster updates are enabled exactly when every interaction is spin-flip symmetric and a constant single-site term exists; loop updates preserve leg parity (explains the known finding). "
+        "text": "PARTIAL proof. Coq theorems for every Hamiltonian, operator arity and leg pair: the heat-bath exit choice of the directed loop satisfies W(o) P(o; e->x) = W(o') P(o'; x->e) (same normaliser both ways, exit weight = weight of the resulting operator), a bounce changes nothing; the diagonal update is reversible w.r.t. the configuration weight; cluster updates are enabled exactly when every interaction is spin-flip symmetric and a constant single-site term exists; loop updates preserve leg parity (explains the known finding) and always close into a consistent world line (for every start and exit sequence). "
                 "The generic timestep (diagonal, loops with their start choice, clusters, refresh) is replayed on raw RNG words against the real one; convergence on exchange models, symmetric diagonal + constant sets, mixed arities, with and without heat bath, is decided against exact diagonalisation.",
         "note": "Trusted: Coq kernel + vm_compute; model transcriptions; exact-diagonalisation oracle. Known finding (odd-parity) is listed in known_findings.json and reported as KNOWN-FINDING.",
         "technique": "Coq proof (vertex detailed balance, slot reversibility, cluster gate, parity invariant) + raw-tape replay of generic timesteps + exact-diagonalisation oracle",
@@ -124,10 +124,11 @@ META = {
     },
     "C06": {
         "text": "Coq theorems, for all Hamiltonian tables, cutoffs, strings and outcomes: both diagonal-update variants satisfy a structural slot specification, and any update satisfying it maps a consistent periodic "
-                "configuration to a consistent periodic one with the same p=0 state; the free-spin refresh, cutoff padding and replica swaps preserve consistency; the imaginary-time fold visits exactly the propagated states, one per slot. "
-                "Every public call (timestep, single_diagonal_step, single_cluster_step, generic timestep with loops/clusters, tempering steps in C10) is replayed by the model on the raw RNG words, and an independent world-line checker runs after every call.",
-        "note": "Trusted: Coq kernel + vm_compute; model transcriptions. Partial: consistency after the cluster flip, the directed loop and RVB is established by checker + exact model agreement only.",
-        "technique": "Coq proof (support induction over the sweep program) + whole-call raw-tape replay + independent checker after every call",
+                "configuration to a consistent periodic one with the same p=0 state; the free-spin refresh, cutoff padding and replica swaps preserve consistency; the imaginary-time fold visits exactly the propagated states, one per slot; the cluster flip preserves consistency for every validated labelling; "
+                "the directed-loop update closes into a consistent configuration for every Hamiltonian, arity, start leg and every sequence of exit choices (segment-flip invariant). "
+                "Every public call (timestep with and without RVB, single_diagonal_step, single_cluster_step, single_rvb_sweep, generic timestep with loops/clusters, tempering steps in C10) is replayed by the model on the raw RNG words, wf is evaluated in Coq on every replayed result, and an independent world-line checker runs after every call.",
+        "note": "Trusted: Coq kernel + vm_compute; model transcriptions. Partial: consistency after the RVB update (transcribed, replayed, checked, not proved) and that the cluster decomposition always yields a validated labelling (validator evaluated on every case).",
+        "technique": "Coq proof (support induction over the sweep program; segment-flip invariant of the directed loop for all draw sequences) + whole-call raw-tape replay + independent checker after every call",
         "design_ref": "DESIGN.md §3 C06",
     },
     "C07": {
